@@ -316,12 +316,18 @@ def run_dsp(rng, items, keys, delays, debounce, maxwin, junk_n=0):
     seen_fin1 = [0]
     holder = {}
 
+    # in a third of the cases the stream carries plain STRINGS (log lines) instead of ints: the function is generic in
+    # its item type, nothing may depend on what the items are
+    as_str = bool(items) and sum(items) % 3 == 0
+    wrap = (lambda v: "line-%d" % v) if as_str else (lambda v: v)
+    unwrap = (lambda o: int(o[5:]) if isinstance(o, str) and o.startswith("line-") else o)
+
     async def inner():
         for k, v in enumerate(items):
             if delays[k] > 0:
                 await asyncio.sleep(delays[k])
             log.append([0, 0])
-            yield v
+            yield wrap(v)
         if delays[len(items)] > 0:
             await asyncio.sleep(delays[len(items)])
         log.append([0, 0])
@@ -342,9 +348,9 @@ def run_dsp(rng, items, keys, delays, debounce, maxwin, junk_n=0):
 
     async def main():
         agen = holder["agen"] = IU.debounced_sorted_prefix(
-            inner(), key=lambda v: keys[v], debounce_seconds=debounce, max_window_seconds=maxwin)
+            inner(), key=lambda v: keys[unwrap(v)], debounce_seconds=debounce, max_window_seconds=maxwin)
         async for v in agen:
-            out.append(v)
+            out.append(unwrap(v))
         return True
 
     finished = False
